@@ -247,12 +247,14 @@ def handle (args : List String) : String :=
   | ["cert", which, x, eps] => Id.run do
       let some x := ratBits? x | return "bad-op"
       let some eps := ratBits? eps | return "bad-op"
-      let b ← match which with
-        | "rankone" => pure (Generated.Thresholds20.rankOneCert x eps)
-        | "hierarchy" => pure (Generated.Thresholds20.hierarchyCert x eps)
-        | "abc" => pure (Generated.Thresholds20.abcCert x eps)
-        | "lu" => pure (luCertifies x eps)
+      -- a verdict the translator could not bring to its normal form is answered `unknown` (never a guessed model)
+      let (known, b) ← match which with
+        | "rankone" => pure (Generated.Thresholds20.rankOneCertKnown, Generated.Thresholds20.rankOneCert x eps)
+        | "hierarchy" => pure (Generated.Thresholds20.hierarchyCertKnown, Generated.Thresholds20.hierarchyCert x eps)
+        | "abc" => pure (Generated.Thresholds20.abcCertKnown, Generated.Thresholds20.abcCert x eps)
+        | "lu" => pure (true, luCertifies x eps)
         | _ => return "bad-op"
+      if !known then return "unknown"
       return if b then "1" else "0"
   | ["certdefault", which] =>
       let f := fun (n d : Nat) (neg : Bool) => (if neg then "-" else "") ++ s!"{n}/{d}"
